@@ -5,3 +5,8 @@ import MqttVerif.Model.Utf8
 import MqttVerif.Model.Parse
 import MqttVerif.Model.PacketId
 import MqttVerif.Model.Api
+import MqttVerif.Model.Filter
+import MqttVerif.Model.Subs
+import MqttVerif.Spec.Mqtt311
+import MqttVerif.Spec.TopicMatch
+import MqttVerif.Spec.SubsSpec
